@@ -260,9 +260,11 @@ pub enum Pat { Ident(PatIdent), Other(Node) }
 pub enum MacroDelimiter { Paren(Node), Brace(Node), Bracket(Node) }
 pub struct Macro { pub delimiter: MacroDelimiter, pub rest: Node }
 pub struct ExprMacro { pub mac: Macro, pub rest: Node }
+pub struct Label { pub rest: Node }
+pub struct ExprBlock { pub label: Option<Label>, pub rest: Node }
 pub enum Expr {
     Let(ExprLet),
-    Block(Node),
+    Block(ExprBlock),
     Macro(ExprMacro),
     Assign(Node), AssignOp(Node), Binary(Node), Box(Node), Break(Node), Cast(Node), Closure(Node),
     Range(Node), Reference(Node), Return(Node), Type(Node), Unary(Node), Yield(Node),
